@@ -59,6 +59,16 @@ def write_evidence(mod, tier, seed, res, wall, n_viol):
     }
     for k, v in res.extra.items():
         cov[k] = v
+    # how the hand-written environment models under this check are bound to the real implementations (DESIGN.md 10.8)
+    env_models = []
+    if mod.ID in ("C01", "C07", "C09", "C11", "C12"):
+        env_models.append("Thespian transport = mc/actorsim.py: every trace recorded from the real multiprocTCPBase / multiprocQueueBase (incl. a "
+                          "three-system convention scenario) is reproduced by a schedule of the model (tools/conformance_thespian.py, run by setup_cmd)")
+    if mod.ID in ("C01", "C04", "C05", "C07", "C09", "C11", "C16", "C18"):
+        env_models.append("asyncio event loop = mc/vloop.py: the event log of conformance/aioprog.py on the real loop equals the model's default "
+                          "schedule (tools/conformance_asyncio.py, run by setup_cmd)")
+    if env_models:
+        cov["environment_models_validated_against_implementation"] = env_models
     ev = {
         "property_id": mod.ID,
         "tier": tier,
